@@ -1,5 +1,8 @@
 //! PARSE suite: runs `garnish_lang_compiler::parse::parse` on a token list given directly in the case line.
 //! Case:   PARSE \t id \t TypeName,<escaped text> \t ...      (optional first field `!errclass`: print the error class)
+//!         optional first field `!tokidx`: token k of the case is created with row 0, column k and every node is printed with
+//!         a trailing `@k` = position (in the case's token list) of the token the node was created from (the synthesized
+//!         List node: the token it was cloned from)
 //! Result: `ok root=<n>` then per node `\tDefinition/SecDef,parent,left,right,TokenTypeName,<escaped text>` | `err`
 use crate::esc::{escape, unescape};
 use garnish_lang_compiler::lex::{LexerToken, TokenType};
@@ -119,14 +122,20 @@ fn opt(o: Option<usize>) -> String {
 pub fn parse_case(f: &[&str]) -> String {
     let mut fields = &f[2..];
     let mut errclass = false;
-    if let Some(first) = fields.first() {
+    let mut tokidx = false;
+    while let Some(first) = fields.first() {
         if *first == "!errclass" {
             errclass = true;
             fields = &fields[1..];
+        } else if *first == "!tokidx" {
+            tokidx = true;
+            fields = &fields[1..];
+        } else {
+            break;
         }
     }
     let mut tokens = Vec::with_capacity(fields.len());
-    for field in fields {
+    for (k, field) in fields.iter().enumerate() {
         let (name, text) = match field.find(',') {
             None => return "BAD-CASE".to_string(),
             Some(i) => (&field[..i], &field[i + 1..]),
@@ -135,7 +144,7 @@ pub fn parse_case(f: &[&str]) -> String {
             None => return "BAD-CASE".to_string(),
             Some(t) => t,
         };
-        tokens.push(LexerToken::new(unescape(text), tt, 0, 0));
+        tokens.push(LexerToken::new(unescape(text), tt, 0, if tokidx { k } else { 0 }));
     }
     match parse(&tokens) {
         Err(e) => {
@@ -166,6 +175,9 @@ pub fn parse_case(f: &[&str]) -> String {
                     t.get_token_type(),
                     escape(t.get_text())
                 ));
+                if tokidx {
+                    out.push_str(&format!("@{}", t.get_column()));
+                }
             }
             out
         }
